@@ -48,6 +48,80 @@ func isNextCall(e ast.Expr) bool {
 	return false
 }
 
+// isDerivedCall reports calls of the helpers that loop over py.Next themselves
+// (py.Iterate and what is built on it): a consumer that uses one of them is faithful
+// exactly when it hands the helper's error on to its caller.
+func isDerivedCall(e ast.Expr) (string, bool) {
+	c, ok := e.(*ast.CallExpr)
+	if !ok {
+		return "", false
+	}
+	names := map[string]bool{"Iterate": true, "SequenceList": true, "SequenceTuple": true, "SequenceSet": true}
+	switch f := c.Fun.(type) {
+	case *ast.Ident:
+		if names[f.Name] {
+			return f.Name, true
+		}
+	case *ast.SelectorExpr:
+		if x, ok := f.X.(*ast.Ident); ok && x.Name == "py" && names[f.Sel.Name] {
+			return f.Sel.Name, true
+		}
+		if f.Sel.Name == "ExtendSequence" {
+			return "ExtendSequence", true
+		}
+	}
+	return "", false
+}
+
+// classifyDerived: what the caller does with the error of a derived helper
+func classifyDerived(fset *token.FileSet, path []ast.Node) (string, string) {
+	n := len(path)
+	if n < 2 {
+		return "ignored", "?"
+	}
+	switch p := path[n-2].(type) {
+	case *ast.ReturnStmt:
+		return "forward", text(fset, p)
+	case *ast.ExprStmt:
+		return "ignored", "result dropped"
+	case *ast.AssignStmt:
+		id, ok := p.Lhs[len(p.Lhs)-1].(*ast.Ident)
+		if !ok || id.Name == "_" {
+			return "ignored", "error assigned to _"
+		}
+		v := id.Name
+		if n >= 3 {
+			if is, ok := path[n-3].(*ast.IfStmt); ok && is.Init == ast.Stmt(p) {
+				ct := text(fset, is.Cond)
+				if strings.Contains(ct, v+" != nil") && returnsVar(is.Body, v) {
+					return "forward", ct
+				}
+				return "anyError", ct
+			}
+		}
+		k, form := classify(fset, append([]ast.Node(nil), path[:n-1]...), v)
+		if k == "anyError" && n >= 3 {
+			// `if err == nil { err = loopErr }; return found, err`: the error is returned further down
+			if blk, ok := path[n-3].(*ast.BlockStmt); ok {
+				after := false
+				for _, st := range blk.List {
+					if st == ast.Stmt(p) {
+						after = true
+						continue
+					}
+					if r, ok := st.(*ast.ReturnStmt); ok && after && len(r.Results) > 0 {
+						if id, ok := r.Results[len(r.Results)-1].(*ast.Ident); ok && id.Name == v {
+							return "forward", form + " ... " + text(fset, r)
+						}
+					}
+				}
+			}
+		}
+		return k, form
+	}
+	return "ignored", "call nested in an expression"
+}
+
 func mentions(fset *token.FileSet, n ast.Node, v string) bool {
 	found := false
 	ast.Inspect(n, func(m ast.Node) bool {
@@ -176,7 +250,7 @@ func main() {
 		os.Exit(2)
 	}
 	repo, out := os.Args[1], os.Args[2]
-	var sites []site
+	var sites, derived []site
 	for _, dir := range []string{"vm", "py", "stdlib/builtin"} {
 		files, _ := filepath.Glob(filepath.Join(repo, dir, "*.go"))
 		sort.Strings(files)
@@ -201,7 +275,7 @@ func main() {
 					t := text(fset, fd.Recv.List[0].Type)
 					name = strings.TrimPrefix(t, "*") + "." + name
 				}
-				ord := 0
+				ord, dord := 0, 0
 				var path []ast.Node
 				ast.Inspect(fd.Body, func(n ast.Node) bool {
 					if n == nil {
@@ -209,6 +283,13 @@ func main() {
 						return true
 					}
 					path = append(path, n)
+					if ce, ok := n.(*ast.CallExpr); ok {
+						if callee, ok := isDerivedCall(ce); ok {
+							k, form := classifyDerived(fset, append([]ast.Node(nil), path...))
+							derived = append(derived, site{rel, name + ":" + callee, dord, fset.Position(n.Pos()).Line, k, form})
+							dord++
+						}
+					}
 					if es, ok := n.(*ast.ExprStmt); ok && isNextCall(es.X) {
 						sites = append(sites, site{rel, name, ord, fset.Position(n.Pos()).Line, "ignored", ""})
 						ord++
@@ -252,6 +333,14 @@ func main() {
 		}
 		fmt.Fprintf(&b, "  ⟨%q, %q, %d, %s⟩%s\n", s.file, s.fn, s.ord, ident(s), sep)
 	}
+	b.WriteString("]\n\n/-- every call of py.Iterate / SequenceList / SequenceTuple / SequenceSet / List.ExtendSequence (the helpers that\nloop over py.Next themselves) with what the caller does with the error the helper returns -/\ndef derivedSites : List Site := [\n")
+	for i, s := range derived {
+		sep := ","
+		if i == len(derived)-1 {
+			sep = ""
+		}
+		fmt.Fprintf(&b, "  ⟨%q, %q, %d, .%s⟩%s  -- line %d: %s\n", s.file, s.fn, s.ord, s.kind, sep, s.line, s.form)
+	}
 	b.WriteString("]\n\nend GPy.C05.Generated\n")
 	old, _ := os.ReadFile(out)
 	if string(old) != b.String() {
@@ -263,5 +352,8 @@ func main() {
 	fmt.Printf("itersites: %d sites\n", len(sites))
 	for _, s := range sites {
 		fmt.Printf("SITE %s %s %d %s\n", s.file, s.fn, s.ord, s.kind)
+	}
+	for _, s := range derived {
+		fmt.Printf("DERIVED %s %s %d %s\n", s.file, s.fn, s.ord, s.kind)
 	}
 }
